@@ -467,7 +467,7 @@ def run_hist(desc):
 
 
 # ------------------------------------------------------------------------------------------------ group selfiter
-SELFITER_REQUIRED = {"quick": {"selfiter_compared": 30, "selfiter_registry_leaf_first_order": 30, "selfiter_second_order_compared": 25},
+SELFITER_REQUIRED = {"quick": {"selfiter_compared": 20, "selfiter_registry_leaf_first_order": 20, "selfiter_second_order_compared": 15},
                      "thorough": {"selfiter_compared": 200, "selfiter_registry_leaf_first_order": 200, "selfiter_second_order_compared": 160}}
 ACCESS = ["parameters", "named_parameters", "get_parameter", "sub_parameters"]
 
